@@ -1,6 +1,9 @@
 package main
 
-import "fmt"
+import (
+	"fmt"
+	"sort"
+)
 
 type PropDef struct {
 	ID            string
@@ -45,6 +48,75 @@ func inst(pkg, name string, params ...string) *HarnessCfg {
 }
 
 func init() {
+	propDefs["C01"] = &PropDef{
+		ID:       "C01",
+		Patterns: []string{"./mp4"},
+		InitPkgs: []string{mod + "/mp4"},
+		Instances: func(tier string, L *Loaded) []*HarnessCfg {
+			var r []*HarnessCfg
+			p := mod + "/mp4"
+			for _, t := range registeredBoxTypes(L, "decodersSR") {
+				for n := 0; n <= 128; n++ {
+					c := inst(p, "VerifC01Box", t, itoa(n), "false", "false")
+					c.PanicIsViol = false
+					c.MaxWallS = 20
+					r = append(r, c)
+				}
+			}
+			return r
+		},
+		Bounds: func(tier string) map[string]interface{} { return map[string]interface{}{} },
+	}
+	propDefs["C18"] = &PropDef{
+		ID:       "C18",
+		Patterns: []string{"./aac", "./mp4"},
+		InitPkgs: []string{mod + "/aac", mod + "/mp4"},
+		Instances: func(tier string, L *Loaded) []*HarnessCfg {
+			var r []*HarnessCfg
+			p := mod + "/aac"
+			for _, ot := range []int{2, 5, 29} {
+				r = append(r, inst(p, "VerifC18ASC", itoa(ot)))
+			}
+			jmax := 4
+			if tier == "thorough" {
+				jmax = 8
+			}
+			for j := 0; j <= jmax; j++ {
+				r = append(r, inst(p, "VerifC18ADTS", itoa(j)))
+			}
+			return r
+		},
+		Bounds: func(tier string) map[string]interface{} { return map[string]interface{}{} },
+		Covers: []string{"asc roundtrip", "adts roundtrip"}, RequireCovers: true,
+	}
+	propDefs["C14"] = &PropDef{
+		ID:       "C14",
+		Patterns: []string{"./avc", "./hevc"},
+		InitPkgs: []string{mod + "/avc", mod + "/hevc"},
+		Instances: func(tier string, L *Loaded) []*HarnessCfg {
+			var r []*HarnessCfg
+			p := mod + "/avc"
+			// scanner: two units, all alignments across machine words
+			for _, sc1 := range []int{3, 4} {
+				for l1 := 1; l1 <= 9; l1++ {
+					for _, sc2 := range []int{3, 4} {
+						for _, l2 := range []int{1, 2, 5, 9} {
+							r = append(r, inst(p, "VerifC14Scanner", fmt.Sprintf("%d:%d,%d:%d", sc1, l1, sc2, l2)))
+						}
+					}
+				}
+			}
+			for _, lay := range []string{"4:1", "3:1", "4:3,4:2", "3:2,4:3", "4:2,3:1,4:2", "3:5,3:1,3:3"} {
+				r = append(r, inst(p, "VerifC14Convert", lay))
+			}
+			for _, lay := range []string{"4:2", "3:2", "4:3,4:2", "3:2,4:3", "4:2,3:2,4:2", "3:4,3:2,3:3"} {
+				r = append(r, inst(mod+"/hevc", "VerifC14HEVC", lay))
+			}
+			return r
+		},
+		Bounds: func(tier string) map[string]interface{} { return map[string]interface{}{} },
+		Covers: []string{"scanner done", "convert done", "hevc done"}, RequireCovers: true,
+	}
 	propDefs["C13"] = &PropDef{
 		ID:       "C13",
 		Patterns: []string{"./bits"},
@@ -80,4 +152,28 @@ func init() {
 		RequireCovers: true,
 		Assumptions:   []string{"io.Writer/io.Reader are bytes.Buffer/bytes.Reader executed from stdlib source (no I/O errors)"},
 	}
+}
+
+// registeredBoxTypes interprets the mp4 package init and reads the live decoder registry.
+func registeredBoxTypes(L *Loaded, table string) []string {
+	e := NewEngine(L, "z3", 10000)
+	defer e.solver.Close()
+	e.symPtrMax = 64
+	e.stepLimit = defaultStepLimit
+	e.RunInits([]string{mod + "/mp4"})
+	g := L.pkgs[mod+"/mp4"].Var(table)
+	if g == nil {
+		panic("no global " + table)
+	}
+	m, _ := e.globals[g].v.(*MapV)
+	var r []string
+	if m != nil {
+		for _, en := range m.ents {
+			if !en.deleted {
+				r = append(r, en.k.(string))
+			}
+		}
+	}
+	sort.Strings(r)
+	return r
 }
